@@ -206,3 +206,47 @@ Example C01_leaves_single_part :
   | _ => False
   end.
 Proof. split; vm_compute; reflexivity. Qed.
+
+(* ---- the builder calls (theories/Builder.v): SetBody*/AddAlternative*/Attach*/Embed*/SetAttachments/SetEmbeds/
+   UnsetAll*/Reset as operations on the message.  For EVERY sequence of calls each list of the message is what
+   the calls concerning that list asked for (the other calls do not interfere), and the independent reader finds
+   exactly the expected tree of those lists in the rendering. *)
+From Verif Require Import Builder.
+From VerifProofs Require Import BuilderProofs.
+
+Theorem C01_builder_lists : forall (ops : list bop) (st : bstate),
+  let m := b_msg (build st ops) in
+  m_parts m = parts_asked st ops /\ m_embeds m = embeds_asked st ops /\ m_attach m = attach_asked st ops.
+Proof. intros ops st. split; [apply build_parts|split; [apply build_embeds|apply build_attach]]. Qed.
+Print Assumptions C01_builder_lists.
+
+Theorem C01_builder_frame : forall (ops : list bop) (st : bstate),
+  let m := b_msg st in let m' := b_msg (build st ops) in
+  m_charset m' = m_charset m /\ m_wenc m' = m_wenc m /\ m_preform m' = m_preform m /\
+  m_bmixed m' = m_bmixed m /\ m_brelated m' = m_brelated m /\ m_balt m' = m_balt m /\ b_enc (build st ops) = b_enc st.
+Proof. exact build_fixed_fields. Qed.
+Print Assumptions C01_builder_frame.
+
+Theorem C01_builder_leaves : forall (d i : bytes) (rb : list bytes) (st : bstate) (ops : list bop),
+  let m := b_msg (build st ops) in
+  let z := resolve d i rb m in
+  (1 <= length (parts_asked st ops))%nat ->
+  msg_has_failing_producer m = false ->
+  no_bad_boundary z ->
+  fresh_expected z = true ->
+  read_tree (r_out (write_to d i rb m unlimited)) = Some (expected_tree z) /\
+  m_parts m = parts_asked st ops /\ m_embeds m = embeds_asked st ops /\ m_attach m = attach_asked st ops.
+Proof. exact build_leaves. Qed.
+Print Assumptions C01_builder_leaves.
+
+(* UnsetAllParts drops the files and keeps the body parts (as documented); SetBody after alternatives starts over *)
+Example C01_builder_example :
+  let p := mkprod [bs "x"] false in
+  let f := mkfile (bs "a.bin") (bs "application/octet-stream") None [] [] p in
+  let st := empty_state EncQP ex_single in
+  let m := b_msg (build st [BSetBody (bs "text/plain") None None [] p; BAddAlt (bs "text/html") (Some EncB64) None [] p;
+                            BAttach f; BEmbed f; BUnsetParts; BAttach f; BSetBody (bs "text/plain") None None [] p;
+                            BAddAlt (bs "text/x") None None [] p]) in
+  map p_ctype (m_parts m) = [bs "text/plain"; bs "text/x"] /\ map p_enc (m_parts m) = [EncQP; EncQP] /\
+  length (m_embeds m) = 0%nat /\ length (m_attach m) = 1%nat.
+Proof. vm_compute. auto. Qed.
